@@ -359,20 +359,27 @@ def oracle(job: dict, res: dict, ref: dict, per: dict, traces: dict, match: dict
     # prompt in the calling frame; if that one is not in the user's file the frame is not the user's.
     GENERATED = {'__init__', '__repr__', '__eq__', '__lt__', '__le__', '__gt__', '__ge__', '__hash__', '__setattr__', '__delattr__',
                  '__getstate__', '__setstate__', '__replace__'}
-    lib_frames = set()
-    if tm:
+    lib_prompts = set()       # id() of the prompt records that belong to such a frame (frame ids are re-used once a frame is gone:
+    if tm:                     # a frame counts from its call prompt to its return prompt only)
         for d0 in traces.values():
             prev = None
+            active = set()
             for q in d0['prompts']:
                 if q['event'] == 'call' and q['file'] == '<string>' and q['func'] in GENERATED and prev is not None \
                         and not is_user_file(prev['file']):
-                    lib_frames.add(q['frame'])
+                    active.add(q['frame'])
+                elif q['event'] == 'call':
+                    active.discard(q['frame'])      # a new frame at a re-used address
+                if q['frame'] in active:
+                    lib_prompts.add(id(q))
+                    if q['event'] == 'return':
+                        active.discard(q['frame'])
                 prev = q
 
     def is_user_prompt(p):
         if not is_user_file(p['file']):
             return False
-        if p.get('frame') in lib_frames:
+        if id(p) in lib_prompts:
             return False
         if not p['func']:
             return True
